@@ -26,6 +26,7 @@ type Clause struct {
 type LoopContract struct {
 	Ordinal    int
 	Hints      []Clause
+	Steps      []Clause // relation between the state at the start (prev(e)) and at the end of one iteration
 	Splits     []Clause // case analysis: every obligation of the loop body is discharged once per case
 	Invariants []Clause
 	Decreases  *Clause
@@ -129,7 +130,7 @@ var (
 )
 
 var clauseKeywords = map[string]bool{"func": true, "spec": true, "lemma": true, "property": true, "ghost": true, "requires": true,
-	"ensures": true, "loop": true, "invariant": true, "decreases": true, "flags": true, "bind": true, "callsite": true, "let": true, "hint": true, "noread": true, "cache": true, "mustread": true, "global": true, "fresh": true, "split": true}
+	"ensures": true, "loop": true, "invariant": true, "decreases": true, "flags": true, "bind": true, "callsite": true, "let": true, "hint": true, "noread": true, "cache": true, "mustread": true, "global": true, "fresh": true, "split": true, "step": true}
 
 func parseParams(s string) ([]Param, error) {
 	s = strings.TrimSpace(s)
@@ -342,6 +343,15 @@ func (cs *Contracts) ParseFile(path, pkgName string) error {
 				return err
 			}
 			curLoop.Invariants = append(curLoop.Invariants, c)
+		case "step":
+			if curLoop == nil {
+				return fail(l, "step outside loop")
+			}
+			c, err := mkClause(l, rest)
+			if err != nil {
+				return err
+			}
+			curLoop.Steps = append(curLoop.Steps, c)
 		case "split":
 			if curLoop == nil {
 				return fail(l, "split outside loop")
@@ -494,6 +504,7 @@ type (
 	}
 	EOld   struct{ X Expr }
 	EEntry struct{ X Expr } // value at entry of the current loop
+	EPrev  struct{ X Expr } // value at the start of the current iteration (step clauses)
 )
 
 type tok struct {
@@ -901,6 +912,8 @@ func (p *lexer) postfix() Expr {
 				x = EOld{X: args[0]}
 			} else if id, ok := x.(EIdent); ok && id.Name == "entry" && len(args) == 1 {
 				x = EEntry{X: args[0]}
+			} else if id, ok := x.(EIdent); ok && id.Name == "prev" && len(args) == 1 {
+				x = EPrev{X: args[0]}
 			} else {
 				x = ECall{Fun: x, Args: args}
 			}
